@@ -97,7 +97,7 @@ var properties = map[string]Property{
 	},
 	"C11": {
 		Level:       "other",
-		Rules:       []string{"I-OVERFLOW", "I-RANGE", "I-BUF", "I-PROGRESS", "O-SEQ", "R-ITER-STABLE", "G-IMPORTS"},
+		Rules:       []string{"I-OVERFLOW", "I-RANGE", "I-BUF", "I-PROGRESS", "I-EXACT", "O-SEQ", "R-ITER-STABLE", "G-IMPORTS"},
 		Explanation: "Decided (totality half, for every start/end/step/length): zone (difference-bound matrix) abstract interpretation with trace partitioning of every subscript implementation, helpers inlined, with subscript numbers ranging over the whole machine integer range and 0 <= length <= maxInt/16: no addition, subtraction, negation or multiplication on subscript values can leave the machine integer range (exact big-integer interval per operation); every integer stored into a produced index list lies in [0, length-1]; every write into and reslice of the pre-sized buffer is in range (for both loops, using the iteration-count lemma: a counter incremented once per iteration of a loop whose variable moves by at least one towards a fixed bound is bounded by the distance between start and bound); make() lengths are non-negative; every loop variable moves towards its bound by a provably non-zero amount (termination). The consuming loops visit the produced indices completely and in order (O-SEQ). Not decided: exactness w.r.t. Python slicing (which elements are selected) — a numerical property.",
 		Assumptions: []string{"a []interface{} cannot have more than maxInt/16 elements (element size 16 bytes)", "the iteration-count lemma (proved in DESIGN.md §3.G) is part of the trusted base"},
 	},
